@@ -122,6 +122,16 @@ fn build_app() -> Ohkami {
             let r = ran(json!({"p": [p]}));
             async move { r }
         }),
+        // (wave 14) a static segment and a param as siblings, a param below the static one as well: a router that gives up the
+        // static branch half-way and takes the param sibling must not keep what it captured on the way
+        "/sib/me/:tab/edit".GET(|tab: String| {
+            let r = ran(json!({"p": [tab]}));
+            async move { r }
+        }),
+        "/sib/:id/settings/view".GET(|id: String| {
+            let r = ran(json!({"p": [id]}));
+            async move { r }
+        }),
         "/r/:p".GET(h_str_ref),
         "/cow/:p".GET(h_cow),
         "/u8/:p".GET(int_route!(u8)),
@@ -420,7 +430,16 @@ fn gen_req() -> Req {
         expect,
         cut_body_fin: None,
     };
-    match t::weighted(&[6, 3, 2, 3, 3, 2, 2, 2, 2, 2, 2, 4]) {
+    match t::weighted(&[6, 3, 2, 3, 3, 2, 2, 2, 2, 2, 2, 4, 1]) {
+        12 => {
+            let v = t::pick(&["x", "42", "settings", "me", "abc"]);
+            match t::draw(3) {
+                0 => mk("GET", format!("/sib/me/{v}/edit"), None, None, "valid", "sib", "static-branch", Some(json!({"p": [v]}))),
+                1 if v != "me" => mk("GET", format!("/sib/{v}/settings/view"), None, None, "valid", "sib", "param-branch", Some(json!({"p": [v]}))),
+                // the static branch dead-ends: 404 (the tree), or the param sibling with `me` as its param — never with `settings`
+                _ => mk("GET", "/sib/me/settings/view".into(), None, None, "grey", "sib", "static-branch-dead-ends", Some(json!({"p": ["me"]}))),
+            }
+        }
         11 => {
             // the signature matrix
             let np = 1 + t::draw(2) as usize;
